@@ -108,6 +108,8 @@ func c10File(r *rand.Rand) (kind string, data []byte, wellFormed bool) {
 			case 4:
 				cmds[i].Command = ""
 				cmds[i].Description = ""
+			case 7: // no command text, the rest intact (matched through its description / keywords)
+				cmds[i].Command = []string{"", " ", "\t"}[r.Intn(3)]
 			case 5: // NUL at the end of / inside the first word
 				w := strings.Fields(cmds[i].Command + " x")
 				w[0] = w[0] + "\x00"
@@ -120,7 +122,7 @@ func c10File(r *rand.Rand) (kind string, data []byte, wellFormed bool) {
 		}
 		c10Words = nil
 		for i := range cmds {
-			for _, w := range strings.Fields(cmds[i].Command) {
+			for _, w := range strings.Fields(cmds[i].Command + " " + cmds[i].Description) {
 				c10Words = append(c10Words, w)
 			}
 		}
@@ -208,7 +210,9 @@ func guarded(f func() int) (n int, pan string, hang bool, ms int64) {
 }
 
 func c10Run(c *c10Case, dir string) {
-	p := filepath.Join(dir, fmt.Sprintf("f%d.yml", c.ID))
+	// the name varies too: a path is part of every OS error message
+	name := []string{"f%d.yml", "f%d.yaml", "unmarshal%d.yml", "yaml: f%d.yml", "permission denied %d.yml", "f%d"}[c.ID%6]
+	p := filepath.Join(dir, fmt.Sprintf(name, c.ID))
 	if c.FileKind != "missing" {
 		os.WriteFile(p, []byte(fromInts(c.File)), 0o644)
 		defer os.Remove(p)
